@@ -62,6 +62,8 @@ func parseJUnitXMLTestResults(data []byte) (core.TestSuites, error) {
 				xmlTest := jUnitXMLTest{}
 				testCase := core.TestCase{}
 				decoder.DecodeElement(&xmlTest, &tok)
+				testCase.ClassName = xmlTest.ClassName
+				testCase.Name = xmlTest.Name
 				appendResult(xmlTest, &testCase)
 				testSuite.TestCases = append(testSuite.TestCases, testCase)
 				testSuite.Duration += xmlTest.Duration()
